@@ -30,6 +30,9 @@ def main():
         if fn is None and spec["q"] in ("ecies", "aes_dispatch"):
             from mirsym import queries_ecies as QE
             fn = getattr(QE, "q_" + spec["q"])
+        if fn is None and spec["q"] in ("asm_roundtrip",):
+            from mirsym import queries_asm as QA
+            fn = getattr(QA, "q_" + spec["q"])
         if fn is None and spec["q"] in ("script_parse",):
             from mirsym import queries_script as QSC
             fn = getattr(QSC, "q_" + spec["q"])
